@@ -161,7 +161,7 @@ func runsFor(prop, tier string) []run {
 		// open, dirty, closed or reopened
 		cr := c
 		cr.ViaREST = true
-		cr.Alphabet = []string{"W", "Mode:WO", "Mode:RW", "Close", "Open", "Reload", "SnapA", "ReopenP"}
+		cr.Alphabet = []string{"W", "Mode:WO", "Mode:RW", "SetRev:7", "SetRev:3", "Close", "Open", "Reload", "SnapA", "ReopenP"} // SetRev travels backend/remote -> replica/rest: the wire contract of the counter is part of the run
 		cr.Oracles = []string{"rev", "restview", "reopen", "read"}
 		return []run{{"1blk-counter-as-reported-over-rest", cr, pick(4, 6), minutes(pickf(0.6, 5))}, {"1blk-counter", c, pick(6, 8), minutes(pickf(2, 12))}}
 	case "C16":
